@@ -96,6 +96,12 @@ def check_vector(v):
                     cmp("get_pileup[collection listed m times]", want_m, outcome(lambda: get_pileup(Am, S).to_array().tolist()), m=m)
                     cmp("bedgraph.get_pileup[collection listed m times]", want_m, outcome(lambda: np.asarray(bedgraph_pileup(Am, S)).tolist()), m=m)
                     cmp("Geometry.get_pileup[collection listed m times]", want_m, outcome(lambda: Geometry({"chr1": S}).get_pileup(Am).to_dict()["chr1"].tolist()), m=m)
+        # boolean arrays made by comparing the pile-up (adjacent runs of the pile-up may compare to the same truth value)
+        if a:
+            for nm_, f_, w_ in ((">0", lambda p_: p_ > 0, [x > 0 for x in v["pileup"]]), (">=2", lambda p_: p_ >= 2, [x >= 2 for x in v["pileup"]]),
+                                ("!=1", lambda p_: p_ != 1, [x != 1 for x in v["pileup"]]), ("<2", lambda p_: p_ < 2, [x < 2 for x in v["pileup"]])):
+                cmp("(get_pileup %s).to_array" % nm_, w_, outcome(lambda: [bool(x) for x in np.asarray(f_(get_pileup(A, S)).to_array()).tolist()]))
+                cmp("(Geometry.get_pileup %s).to_dict" % nm_, w_, outcome(lambda: [bool(x) for x in f_(Geometry({"chr1": S}).get_pileup(A)).to_dict()["chr1"].tolist()]))
         cmp("sort_intervals", v["sorted"], outcome(lambda: _rows(sort_intervals(A))))
         cmp("sort_intervals[StringEncoding]", v["sorted"], outcome(lambda: _rows(sort_intervals(_iv_strenc(a)))))
         g = Geometry({"chr1": S})
@@ -144,6 +150,11 @@ def check_vector(v):
                 cmp("Geometry.jaccard[three contigs]", g3["jaccard"][0] / g3["jaccard"][1], outcome(lambda: float(Geometry(sizes3).jaccard(A3, B))), a_disjoint=v["apre"])
             if g3["forbes"][1] != 0:
                 cmp("forbes[three contigs]", g3["forbes"][0] / g3["forbes"][1], outcome(lambda: float(forbes(sizes3, A3, B))), a_disjoint=v["apre"])
+            # sorting / merging over the genome with an empty interval at the first base of the second and third contig: it stays on its contig
+            E3 = _Iv(["chr3", "chr2"] + ["chr1"] * len(a), np.array([0, 0] + [x["s"] for x in a], dtype=int), np.array([0, 0] + [x["e"] for x in a], dtype=int))
+            want_s = [["chr1", x["s"], x["e"]] for x in sorted(a, key=lambda x: (x["s"], x["e"]))] + [["chr2", 0, 0], ["chr3", 0, 0]]
+            cmp("Geometry.sort[three contigs, empty intervals at contig starts]", want_s,
+                outcome(lambda: (lambda t_: [[c_, int(s_), int(e_)] for c_, s_, e_ in zip([c.to_string() if hasattr(c, "to_string") else str(c) for c in t_.chromosome], t_.start.tolist(), t_.stop.tolist())])(Geometry(sizes3).sort(E3))))
             # the same sets handed over as per-contig lookups (name -> table) whose keys come in another order than the contigs
             def look(t, order):
                 names = t.chromosome.tolist()
